@@ -278,6 +278,66 @@ extern "C" void harness_ind(void)
     VWITNESS();
 }
 
+// ---------------------------------------------------------------------------------------------
+// harness_iter: iteration over an arbitrary well-formed state visits every present element exactly once and
+// then reaches end().  A slots are chained in bucket 0 and B slots in bucket HIB (a define: 1, 128 or the LAST
+// bucket 255), the remaining slots are free; keys (inside the collision class of their bucket) and values symbolic.
+#ifndef HIB
+#define HIB 255
+#endif
+#ifndef ITER_A
+#define ITER_A 1
+#define ITER_B 1
+#endif
+extern "C" void harness_iter(void)
+{
+    static const size_t HIKEYS[2] = { ((size_t)(HIB >> 7) << 8) | (HIB & 127), 0x8000 | ((size_t)(HIB >> 7) << 8) | (HIB & 127) | 0x200 };
+    Map m;
+    unsigned i = 0;
+    Slot *prev = NULL;
+    for(unsigned k = 0; k < ITER_A; k++, i++)
+    {
+        g_slots[i].value.first = KEYS[pick(3)]; g_slots[i].value.second = nondet_uint();
+        g_slots[i].prev = prev; g_slots[i].next = NULL;
+        if(prev) prev->next = &g_slots[i]; else m.m_buckets[0] = &g_slots[i];
+        prev = &g_slots[i];
+    }
+    prev = NULL;
+    for(unsigned k = 0; k < ITER_B; k++, i++)
+    {
+        g_slots[i].value.first = HIKEYS[pick(2)]; g_slots[i].value.second = nondet_uint();
+        VASSERT(Map::hash(g_slots[i].value.first) == HIB, "harness: the key hashes to the chosen bucket");
+        g_slots[i].prev = prev; g_slots[i].next = NULL;
+        if(prev) prev->next = &g_slots[i]; else m.m_buckets[HIB] = &g_slots[i];
+        prev = &g_slots[i];
+    }
+    prev = NULL;
+    for(; i < 4; i++)
+    {
+        g_slots[i].value.first = KEYS[pick(6)]; g_slots[i].value.second = 0;
+        g_slots[i].prev = prev; g_slots[i].next = NULL;
+        if(prev) prev->next = &g_slots[i]; else m.m_freeslots = &g_slots[i];
+        prev = &g_slots[i];
+    }
+    m.m_size = ITER_A + ITER_B; m.m_capacity = 4;
+    unsigned visits[4] = { 0, 0, 0, 0 };
+    unsigned n = 0;
+    Map::iterator it = m.begin();
+    for(; n < 6 && it != m.end(); ++it, ++n)
+    {
+        Slot *s = it.slot;
+        VASSERT(s >= g_slots && s < g_slots + 4, "the iterator designates a slot of the container");
+        if(s >= g_slots && s < g_slots + 4)
+            visits[s - g_slots]++;
+        VASSERT(it->first == s->value.first, "identifier read through the iterator equals the stored one");
+    }
+    VASSERT(it == m.end(), "iteration terminates at end() after at most size() steps");
+    VASSERT(n == ITER_A + ITER_B, "iteration visits exactly size() elements");
+    for(unsigned q = 0; q < 4; q++)
+        VASSERT(visits[q] == (q < ITER_A + ITER_B ? 1u : 0u), "every present element is visited exactly once, free slots never");
+    VWITNESS();
+}
+
 void cvt_OPNI_to_FMIns(OpnInstMeta &dst, const struct OPN2_Instrument &src);
 void cvt_FMIns_to_OPNI(struct OPN2_Instrument &dst, const OpnInstMeta &src);
 
